@@ -11,7 +11,7 @@ func init() {
 	Register(&Profile{Name: "io-faults", Prop: "C18", Weight: 10, Quick: 5000, Thorough: 100000, Fn: ioFaults})
 	SetMeta("C18", &Meta{
 		Level: "fault_enumeration",
-		Rule:  "a scenario = (format, operation in {Create, Verify, Repair}, archive state) drawn from the tape; the operation is first run fault-free on a clone of the simulated disk to learn its I/O call sequence, then once per (call index, applicable fault kind) with that single fault injected on a fresh clone (exhaustive over call indices; thorough adds all pairs for short sequences and sampled pairs otherwise), followed by a fault-free rerun on the post-fault disk. evaluations = scenarios; distinct_nontrivial = distinct (format, operation, state class, number of I/O calls class) among scenarios in which every planned fault actually fired; counters.fault-injections = operations executed with a fault.",
+		Rule:  "a scenario = (format, operation in {Create, Verify, Repair}, archive state) drawn from the tape; the operation is first run fault-free on a clone of the simulated disk to learn its I/O call sequence, then once per (call index, applicable fault kind) with that single fault injected on a fresh clone (exhaustive over call indices; thorough adds all pairs for short sequences and sampled pairs otherwise), followed by a fault-free rerun on the post-fault disk. evaluations = scenarios; distinct_nontrivial = distinct (format, operation, state class, number of I/O calls class) among scenarios in which every planned fault actually fired; counters.fault-injections = operations executed with a fault. Every operation runs with a recording delegate (the channel the par command prints per-file progress from): a read or write that failed by injection must not be reported to it as a success. Archive states include sets written by another client (PAR1 entries not saved in the volume set, PAR2 non-recovery-set files).",
 		Assumptions: []string{
 			"I/O faults exist only at gopar's fileIO seam on the simulated disk; injected errors are EIO/ENOSPC PathErrors, never not-exist",
 			"torn-write semantics: the target holds a prefix of the new data (or is truncated to zero, or is complete with a late error); no other file is touched by the disk itself",
